@@ -612,4 +612,28 @@ example : myTypedRead ⟨some .int64, .ciphertext, none, true⟩ true 8 252 ⟨n
 
 example : blobLike 252 ∧ blobLike 253 ∧ blobLike 254 := by unfold blobLike; decide
 
+/-- what the description handlers announce for an accepted column of each kind:
+(type aware?, RowDescription and ParameterDescription for a bytea column, Parse for a parameter the client declared with
+the type's own OID, MySQL column type for a VAR_STRING column) -/
+def describeAll (r : RawColumn) (clientOid : Nat) : Option (Bool × Nat × Nat × Nat × Nat) :=
+  (initColumn r).map fun c => (hasTypeAwareSupport c, pgRowOid c 17, pgParamOid c 17, pgParseOid c clientOid, myColumnType c 253 false)
+
+/-- searchable + int32 (written by name, then by database id with `response_on_fail: error`): accepted, type aware, int4 -/
+example : describeAll ⟨⟨some .int32, none, none, true, none⟩, .searchable, false, false, false, true⟩ 23 = some (true, 23, 23, 17, 3) := by decide +kernel
+example : describeAll ⟨⟨some .int32, some .error, none, true, none⟩, .searchable, true, false, true, true⟩ 23 = some (true, 23, 23, 17, 3) := by decide +kernel
+/-- masked + str: accepted, type aware, text; masked + int32: rejected; masked + str + `response_on_fail`: rejected -/
+example : describeAll ⟨⟨some .str, none, none, true, none⟩, .masked, false, false, false, true⟩ 25 = some (true, 25, 25, 17, 254) := by decide +kernel
+example : describeAll ⟨⟨some .int32, none, none, true, none⟩, .masked, false, false, false, true⟩ 23 = none := by decide +kernel
+example : describeAll ⟨⟨some .str, some .error, none, true, none⟩, .masked, false, false, false, true⟩ 25 = none := by decide +kernel
+/-- masked without a data type: accepted, not type aware, the database's description stands -/
+example : describeAll ⟨⟨none, none, none, true, none⟩, .masked, false, false, false, true⟩ 25 = some (false, 17, 17, 25, 253) := by decide +kernel
+/-- tokenized int64: accepted, not type aware (PostgreSQL leaves the description alone), MySQL announces LONGLONG;
+a data type of its own is rejected -/
+example : describeAll ⟨⟨some .int64, none, none, true, none⟩, .tokenized, false, false, false, true⟩ 20 = some (false, 17, 17, 20, 8) := by decide +kernel
+example : describeAll ⟨⟨some .int64, none, none, true, none⟩, .tokenized, false, true, false, true⟩ 20 = none := by decide +kernel
+/-- searchable + default without `response_on_fail` is rejected, with it accepted (an encryption-only column accepts both) -/
+example : describeAll ⟨⟨some .int32, none, some [55], true, none⟩, .searchable, false, false, false, true⟩ 23 = none := by decide +kernel
+example : (describeAll ⟨⟨some .int32, some .defaultValue, some [55], true, none⟩, .searchable, false, false, false, true⟩ 23).isSome = true := by decide +kernel
+example : (describeAll ⟨⟨some .int32, none, some [55], true, none⟩, .plain, false, false, false, true⟩ 23).isSome = true := by decide +kernel
+
 end AcraModel.Props.C19
